@@ -275,8 +275,11 @@ class CodedInputStream {
   void ReadFixedIntegerSlow(T& value) {
     if (buffer_ptr_ == buffer_end_ptr_) {
       FillBuffer();
-      ReadFixedIntegerFastFromArray(value, buffer_ptr_);
-      return;
+      // the refill may have returned fewer bytes than the value needs (short read, truncated stream)
+      if (RemainingBufferSpace() >= sizeof(T)) {
+        ReadFixedIntegerFastFromArray(value, buffer_ptr_);
+        return;
+      }
     }
 
     uint8_t bytes[sizeof(T)];
@@ -303,8 +306,11 @@ class CodedInputStream {
   void ReadVarIntegerSlow(T& value) {
     if (buffer_ptr_ == buffer_end_ptr_) {
       FillBuffer();
-      ReadVarIntegerFastFromArray(value, buffer_ptr_);
-      return;
+      // the refill may have returned fewer bytes than the longest encoding (short read, truncated stream)
+      if (RemainingBufferSpace() >= (sizeof(T) * 8 + 6) / 7) {
+        ReadVarIntegerFastFromArray(value, buffer_ptr_);
+        return;
+      }
     }
 
     value = 0;
